@@ -33,6 +33,8 @@ pub struct C20;
 pub const FUEL: u64 = 600_000;
 
 pub struct Case {
+    /// loop budget for this case (model queries need far fewer iterations than analyses)
+    pub fuel: u64,
     pub entry: String,
     pub input_class: &'static str,
     pub desc: Json,
@@ -100,7 +102,7 @@ pub fn gen_case(seed: u64) -> Case {
             };
             let desc = p.to_json();
             let entry = p.name();
-            Case { entry, input_class, desc, run: Box::new(move || format!("{:?}", Outcome::from(uni::call_lib(&p)))) }
+            Case { fuel: FUEL, entry, input_class, desc, run: Box::new(move || format!("{:?}", Outcome::from(uni::call_lib(&p)))) }
         }
         // ------------------------------------------------ ROS analyses
         4..=7 => {
@@ -152,7 +154,7 @@ pub fn gen_case(seed: u64) -> Case {
             };
             let desc = p.to_json();
             let entry = p.name().to_string();
-            Case { entry, input_class, desc, run: Box::new(move || format!("{:?}", Outcome::from(ros::call_lib(&p)))) }
+            Case { fuel: FUEL, entry, input_class, desc, run: Box::new(move || format!("{:?}", Outcome::from(ros::call_lib(&p)))) }
         }
         // ------------------------------------------------ arrival model queries
         8 => {
@@ -162,6 +164,7 @@ pub fn gen_case(seed: u64) -> Case {
             let desc = jobj! {"model" => arr.to_json(), "deltas" => &deltas, "added_jitter" => jit};
             let has_prefix = contains_prefix(&arr);
             Case {
+                fuel: 60_000,
                 entry: "arrival::number_arrivals/steps_iter/clone_with_jitter/delta_min_iter".to_string(),
                 input_class: "regular",
                 desc,
@@ -212,6 +215,7 @@ pub fn gen_case(seed: u64) -> Case {
                 _ => ("arrival::ExtrapolatingCurve", "regular"),
             };
             Case {
+                fuel: 60_000,
                 entry: entry.to_string(),
                 input_class,
                 desc,
@@ -278,6 +282,7 @@ pub fn gen_case(seed: u64) -> Case {
                 _ => "wcet::Curve::from_trace",
             };
             Case {
+                fuel: 60_000,
                 entry: entry.to_string(),
                 input_class: if which == 1 && n == 0 { "extrapolate-to-zero-jobs" } else { "regular" },
                 desc,
@@ -310,6 +315,7 @@ pub fn gen_case(seed: u64) -> Case {
             let limit = *rng.pick(&[1u64, 10, 200, 2000]);
             let desc = jobj! {"supply" => sup.to_json(), "default_service_time" => dflt, "demands" => &demands, "workload" => w.to_json(), "limit" => limit};
             Case {
+                fuel: 60_000,
                 entry: "supply queries + fixed_point::search".to_string(),
                 input_class: "regular",
                 desc,
@@ -330,6 +336,7 @@ pub fn gen_case(seed: u64) -> Case {
             let delta = ((mean / rate).round() as u64).max(if rng.chance(1, 10) { 0 } else { 1 });
             let desc = jobj! {"rate" => rate, "epsilon" => eps, "delta" => delta};
             Case {
+                fuel: 60_000,
                 entry: "arrival::ApproximatedPoisson::number_arrivals".to_string(),
                 input_class: "regular",
                 desc,
@@ -344,7 +351,7 @@ pub fn gen_case(seed: u64) -> Case {
 
 /// Execute one case under catch_unwind with the loop budget armed.
 pub fn run_case_outcome(c: &Case) -> String {
-    match guard_fuel(FUEL, || (c.run)()) {
+    match guard_fuel(c.fuel, || (c.run)()) {
         Ok(s) => s,
         Err(e) if e.kind == "fuel" => format!("FUEL:{}", e.message),
         Err(e) => format!("PANIC:{}", e.class()),
